@@ -6,7 +6,7 @@ from pcv.props import scc_common as sc
 
 P = "PcVerif.Props.C05."
 THEOREMS = [P + t for t in ["pac_rows_cols", "pac_covers_grid", "tab_offsets_1_3", "char_tables_disjoint", "layout_linear_safe",
-                            "layout_strictly_monotone", "skipRedundant_alternates", "formatItalics_balanced", "formatItalics_keeps_characters", "second_copy_dropped", "doubled_control_counts_once"]]
+                            "layout_strictly_monotone", "skipRedundant_alternates", "formatItalics_balanced", "formatItalics_keeps_characters", "second_copy_dropped", "doubled_control_counts_once", "written_caption_exact"]]
 
 
 def make(tier, seed):
